@@ -32,6 +32,9 @@ def prior_calls(n):
                                               general=rng.randint(0, 2)),
         lambda: get_symbols("ia", rng.choice(["ab", "aa", "bb"])),
         lambda: gs.psi(rng.randint(1, 2), rng.choice(["bra", "ket"])),
+        lambda: gs.psi(1, "ket"),
+        lambda: Indices().get_generic_indices(occ=1, virt=1),
+        lambda: gs.amplitude(2, "ph", "ia"),
         lambda: gs.energy(rng.randint(0, 2)),
         lambda: gs.norm_factor(2),
         lambda: gs.overlap(2),
@@ -53,10 +56,31 @@ def requests():
     out["amplitude_2_pphh"] = (gs.amplitude(2, "pphh", "ijab"), "ijab")
     out["expectation_2"] = (gs.expectation_value(2, 1), "")
     out["block_ph_ph_1"] = (m.isr_matrix_block(1, "ph,ph", "ia,jb"), "iajb")
+    # explicitly requested NUMBERED target names: they live in the same name
+    # space as the generic indices handed out by the registry
+    out["amplitude_2_ph_k3c3"] = (gs.amplitude(2, "ph", "k3c3"), "k3c3")
+    out["amplitude_2_ph_j3b3"] = (gs.amplitude(2, "ph", "j3b3"), "j3b3")
+    out["amplitude_1_pphh_num"] = (gs.amplitude(1, "pphh", "i4j5a4b6"),
+                                   "i4j5a4b6")
     if spec.get("thorough"):
         out["block_ph_ph_2"] = (m.isr_matrix_block(2, "ph,ph", "ia,jb"),
                                 "iajb")
         out["energy3"] = (gs.energy(3), "")
+    # explicit target names taken from the registry's CURRENT pool of not yet
+    # handed-out generic names (the most hostile explicit request); the
+    # targets are renamed to i, a afterwards so that runs are comparable
+    reg = Indices()
+    while len(reg._generic_indices["occ"][""]) < 2:
+        reg.get_generic_indices(occ=2)
+    while len(reg._generic_indices["virt"][""]) < 2:
+        reg.get_generic_indices(virt=2)
+    no = reg._generic_indices["occ"][""][0]
+    nv = reg._generic_indices["virt"][""][0]
+    e_pool = gs.amplitude(2, "ph", no + nv)
+    so, sv = get_symbols(no + nv)
+    i_, a_ = get_symbols("ia")
+    out["amplitude_2_ph_pool_names"] = (e_pool.xreplace({so: i_, sv: a_}),
+                                        "ia")
     # wavefunctions requested repeatedly never share contracted indices
     p1 = gs.psi(2, "ket")
     p2 = gs.psi(2, "ket")
